@@ -799,6 +799,12 @@ fn corpus() -> Vec<(&'static str, Sch)> {
     vec![
         // F15: the design's witness
         ("F15 aB/AB", Sch { types: vec![t("aB", &["id"], &[]), t("AB", &["id"], &[])], entry: vec![e("x", "aB", &[])] }),
+        // every parameter type of SCALARS (scalars, lists with nullable / non-nullable elements, nested lists)
+        // on a vertex edge and on an entry point: always compiled
+        ("all parameter types compile", Sch {
+            types: vec![t("Node", &["id"], &[("linked", "Node", &["p0", "p1", "p2", "p3", "p4", "p5", "p6", "p7", "p8", "p9", "p10", "p11", "p12"])])],
+            entry: vec![e("Nodes", "Node", &["q0", "q1", "q2", "q3", "q4", "q5", "q6", "q7", "q8", "q9", "q10", "q11", "q12"])],
+        }),
         ("conversion mismatch UserID", Sch { types: vec![t("UserID", &["id"], &[("friend", "UserID", &[])])], entry: vec![e("x", "UserID", &[])] }),
         ("UserID without edges compiles", Sch { types: vec![t("UserID", &["id"], &[])], entry: vec![e("x", "UserID", &[])] }),
         ("derive collision AB/a_b", Sch { types: vec![t("AB", &["id"], &[]), t("a_b", &["id"], &[])], entry: vec![e("x", "AB", &[])] }),
@@ -949,6 +955,7 @@ fn run(seed: u64, n: usize, compiles: usize, oracle_only: bool, out: &mut Out) {
     let mut corpus_compile: Vec<bool> = vec![compiles > 4; corpus.len()];
     if compiles <= 4 {
         corpus_compile[0] = compiles >= 1; // the F15 witness
+        corpus_compile[1] = compiles >= 1; // every parameter type
         quota.plain = (compiles >= 2) as usize;
         quota.kw_clean = (compiles >= 3) as usize;
         quota.case_clean = (compiles >= 4) as usize;
